@@ -306,6 +306,76 @@ theorem cross_protocol_char_alt_shift (u : Uni) (c C : Int) (f : Form)
 
 example : (({ withShifted := true, withMods := true, withEvent := true } : Form).hasMods = true) := by decide
 
+/-! ## Multi-code-point grapheme clusters (e + U+0301, ZWJ sequences, flags …) -/
+
+/-- **cross_protocol_grapheme_plain.** A grapheme cluster of several code points typed on the key `c`
+    (compose / dead key / IME: `g = c :: rest`, `rest` any valid code points): the legacy report is the
+    cluster itself (`Print g`), the kitty report carries it as associated text
+    (`CSI c ; 1[:1] ; c:rest… u`).  Both decode to the SAME event (key `c`, text `g`), hence the same
+    `String()` and the same bindings.  (Without the text field the kitty report cannot say which cluster
+    was produced, so there is no textless counterpart.) -/
+theorem cross_protocol_grapheme_plain (u : Uni) (c : Int) (rest : Str) (f : Form)
+    (hv : validRune c = true) (hdel : c ≠ 127) (hup : u.isUpper c = false)
+    (hrest : ∀ p ∈ rest, validRune p = true)
+    (hfun : lookup2 (c, 117) functional = none)
+    (hf : f.withShifted = false ∧ f.withBase = false ∧ f.withText = true) :
+    decodeKey u (.print (c :: rest)) = decodeKey u (kittySeq c 117 { key := c, text := c :: rest } f) ∧
+    decodeKey u (.print (c :: rest)) = { keycode := c, text := c :: rest } := by
+  have hL : decodeKey u (.print (c :: rest)) = { keycode := c, text := c :: rest } := by
+    rw [VaxisModel.Props.C09.decode_exact_print u (c :: rest) (by simp) (by simp [hup])]
+    simp [printExpected, hup, hdel]
+  have i0 : inRune 0 := ⟨by decide, by decide⟩
+  have hK : decodeKey u (kittySeq c 117 { key := c, text := c :: rest } f) = { keycode := c, text := c :: rest } := by
+    rw [VaxisModel.Props.C09.decode_exact_csi u c 117 _ f (validRune_inRune hv) i0 i0
+      (by
+        intro p hp
+        simp only [List.mem_cons] at hp
+        rcases hp with rfl | hp
+        · exact ⟨validRune_inRune hv, hv⟩
+        · exact ⟨validRune_inRune (hrest p hp), hrest p hp⟩)
+      (Or.inr ⟨hfun, rfl⟩) (by omega) (by omega)]
+    obtain ⟨ws, wb, wm, we, wt⟩ := f
+    simp only at hf
+    obtain ⟨rfl, rfl, rfl⟩ := hf
+    cases wm <;> cases we <;> simp [kittyExpected, shiftFix, Form.hasMods]
+  exact ⟨hL.trans hK.symm, hL⟩
+
+/-- **cross_protocol_grapheme_shift.** The same for a cluster whose first code point is an upper-case
+    letter `C` (Shift + `c` followed by combining marks: `É` typed as E + U+0301): legacy `Print (C :: rest)`
+    and kitty `CSI c:C ; 2[:1] ; C:rest… u` decode to the same event (key `c`, shifted `C`, Shift, text). -/
+theorem cross_protocol_grapheme_shift (u : Uni) (c C : Int) (rest : Str) (f : Form)
+    (hv : validRune c = true) (hV : validRune C = true) (hdel : c ≠ 127)
+    (hup : u.isUpper C = true) (hlow : u.toLower C = c)
+    (hrest : ∀ p ∈ rest, validRune p = true)
+    (hfun : lookup2 (c, 117) functional = none)
+    (hf : f.withShifted = true ∧ f.withBase = false ∧ f.hasMods = true ∧ f.withText = true) :
+    decodeKey u (.print (C :: rest)) =
+      decodeKey u (kittySeq c 117 { key := c, mods := shiftBit, shifted := C, text := C :: rest } f) ∧
+    decodeKey u (.print (C :: rest)) = { keycode := c, shifted := C, mods := shiftBit, text := C :: rest } := by
+  have hL : decodeKey u (.print (C :: rest)) = { keycode := c, shifted := C, mods := shiftBit, text := C :: rest } := by
+    rw [VaxisModel.Props.C09.decode_exact_print u (C :: rest) (by simp) (by simp [hlow, hdel])]
+    simp [printExpected, hup, hlow]
+  have i0 : inRune 0 := ⟨by decide, by decide⟩
+  have hK : decodeKey u (kittySeq c 117 { key := c, mods := shiftBit, shifted := C, text := C :: rest } f) =
+      { keycode := c, shifted := C, mods := shiftBit, text := C :: rest } := by
+    rw [VaxisModel.Props.C09.decode_exact_csi u c 117 _ f (validRune_inRune hv) (validRune_inRune hV) i0
+      (by
+        intro p hp
+        simp only [List.mem_cons] at hp
+        rcases hp with rfl | hp
+        · exact ⟨validRune_inRune hV, hV⟩
+        · exact ⟨validRune_inRune (hrest p hp), hrest p hp⟩)
+      (Or.inr ⟨hfun, rfl⟩) (by omega) (by omega)]
+    obtain ⟨ws, wb, wm, we, wt⟩ := f
+    simp only [Form.hasMods] at hf
+    obtain ⟨rfl, rfl, hmods, rfl⟩ := hf
+    cases wm <;> cases we <;> simp_all [kittyExpected, shiftFix, Form.hasMods]
+  exact ⟨hL.trans hK.symm, hL⟩
+
+example : validRune 101 = true ∧ asciiUni.isUpper 101 = false ∧ (∀ p ∈ [769], validRune p = true) ∧
+    lookup2 (101, 117) functional = none := by
+  refine ⟨by decide, by decide, by decide, by decide +kernel⟩
+
 /-! ## The run-time evaluators of the hypotheses (`Spec.KeyEncUni.hyp*`, used by the driver) imply the theorems' hypotheses -/
 
 /-- The run-time form of `cross_protocol_char_plain`: when the Bool evaluator the driver runs on Go's
